@@ -42,7 +42,7 @@ def run(pid, tier, tmp, replay):
     sample = [json.loads(l) for l in open(cases).read().splitlines()[:3]]
     cov = {'states': mc['distinct'], 'transitions': mc['states'],
            'traces_validated_against_impl': res['cases'] - res['mismatches'],
-           'samples': sample, 'cases_unary': res['unary'], 'cases_hook_pairs': res['hook'], 'cases_glob': res['glob'],
+           'samples': sample, 'cases_unary': res['unary'], 'cases_hook_pairs': res['hook'], 'cases_hook_objects': res.get('hook_objects', 0), 'cases_glob': res['glob'],
            'known_finding_cases': res['glob_dot_entries'],
            'mc_configs': ['MC_C16_%s.cfg' % tier], 'exhaustive': True,
            'mc_exhaustive_within_constants': bool(mc.get('completed'))}
